@@ -441,6 +441,13 @@ class PathWalker:
                     continue
                 rv = s["rhs"]
                 src = rv["a"]["p"]["l"] if rv["k"] in ("use", "unop") and rv.get("a") and rv["a"]["k"] in ("copy", "move") and not rv["a"]["p"]["proj"] else None
+                envd.pop(("P", l), None)
+                if rv["k"] == "use" and src is not None and ("P", src) in envd:
+                    envd[("P", l)] = envd[("P", src)]
+                elif rv["k"] == "agg" and rv.get("adt"):
+                    # constant payload of a value built here (`Some(true)`, a classification enum): a later match on the
+                    # payload of this very value follows the constant
+                    envd[("P", l)] = tuple((o.get("v") if o["k"] == "const" and "v" in o else None) for o in rv["ops"])
                 if rv["k"] == "use" and rv["a"]["k"] == "const" and rv["a"].get("ty") == "bool" and "v" in rv["a"]:
                     envd[l] = int(rv["a"]["v"])
                 elif rv["k"] == "unop" and rv["op"] == "Not" and rv["a"]["k"] == "const" and rv["a"].get("ty") == "bool" and "v" in rv["a"]:
@@ -486,6 +493,18 @@ class PathWalker:
                 out.append((path, conds, ("end", t["k"])))
                 continue
             known = envd.get(op_local(t["discr"])) if t["k"] == "switch" and not t["discr"]["p"]["proj"] and op_local(t["discr"]) is not None else None
+            if known is None and t["k"] == "switch" and t["discr"]["k"] in ("copy", "move") and t["discr"]["p"]["proj"]:
+                pj = t["discr"]["p"]["proj"]
+                pl = t["discr"]["p"]["l"]
+                fs = [e for e in pj if isinstance(e, dict) and "f" in e]
+                if ("P", pl) in envd and len(fs) == 1 and all(isinstance(e, dict) and ("f" in e or "dc" in e) for e in pj):
+                    pv = envd[("P", pl)]
+                    i_ = fs[0].get("i")
+                    if isinstance(i_, int) and i_ < len(pv) and pv[i_] is not None:
+                        try:
+                            known = int(pv[i_]) if pv[i_] not in ("true", "false") else (1 if pv[i_] == "true" else 0)
+                        except (TypeError, ValueError):
+                            known = None
             if isinstance(known, tuple) and known[0] == "D":
                 a_ = self.body.facts.nadts.get(norm(known[1] or "")) or {"variants": []}
                 dv = [v_["discr"] for v_ in a_["variants"] if v_["name"] == known[2]]
